@@ -810,3 +810,49 @@ m('c19_leak_again', ['C19'], 'jesse/modes/backtest_mode.py',
   "            route_hyperparameters = hyperparameters = jh.dna_to_hp(\n                r.strategy.hyperparameters(), r.strategy.dna()\n            )")
 m('c19_zip_shift', ['C19'], 'jesse/helpers.py',
   "    for gene, h in zip(dna, strategy_hp):", "    for gene, h in zip(dna[1:] + dna[:1], strategy_hp):")
+
+# ---- C13 / C14 -----------------------------------------------------------------------------------
+m('c13_lrsi_wrap_again', ['C13'], 'jesse/indicators/lrsi.py',
+  "    for i in range(1, l0.shape[0]):\n        gamma = 1 - alpha", "    for i in range(l0.shape[0]):\n        gamma = 1 - alpha")
+m('c13_global_max_normaliser', ['C13', 'C15'], 'jesse/indicators/willr.py',
+  "    rolling_max = np.max(high_windows, axis=1)\n", "    rolling_max = np.maximum(np.max(high_windows, axis=1), np.max(high) * 0.98)\n")
+m('c13_centred_window', ['C13', 'C15'], 'jesse/indicators/sma.py',
+  "        res[period-1:] = np.convolve(source, np.ones(period, dtype=float)/period, mode='valid')",
+  "        res[period-2:-1] = np.convolve(source, np.ones(period, dtype=float)/period, mode='valid')")
+m('c13_minmax_backfill', ['C13'], 'jesse/indicators/minmax.py',
+  "    last_min = np_ffill(is_min)", "    last_min = np_ffill(is_min[::-1])[::-1]")
+m('c14_sma_res_minus_2', ['C14'], 'jesse/indicators/sma.py',
+  "    return res if sequential else res[-1]", "    return res if sequential else res[-2]")
+m('c14_slice_239', ['C14'], 'jesse/helpers.py',
+  "        candles = candles[-warmup_candles_num:]", "        candles = candles[-(warmup_candles_num - 1):]")
+m('c14_same_length_dropped', ['C14', 'C13'], 'jesse/indicators/er.py',
+  "    return same_length(candles, res) if sequential else res[-1]", "    return res if sequential else res[-1]")
+m('c14_ema_no_slice', ['C14'], 'jesse/indicators/ema.py',
+  "        candles = slice_candles(candles, sequential)\n        source = get_candle_source(candles, source_type=source_type)\n\n    result = _ema(source, period)",
+  "        source = get_candle_source(candles, source_type=source_type)\n\n    result = _ema(source, period)")
+m('c14_macd_hist_unpadded', ['C14'], 'jesse/indicators/stochastic.py',
+  "    if sequential:\n        return Stochastic(k, d)", "    if sequential:\n        return Stochastic(k, d[1:])")
+
+# ---- C15 -----------------------------------------------------------------------------------------
+m('c15_ema_alpha', ['C15'], 'jesse/indicators/ema.py', "    alpha = 2 / (period + 1)", "    alpha = 2 / period")
+m('c15_wma_window_short', ['C15'], 'jesse/indicators/wma.py',
+  "    weights = np.arange(1, period + 1)", "    weights = np.arange(1, period + 1).astype(float)\n    weights[0] = 0.0")
+m('c15_std_sample', ['C15'], 'jesse/indicators/stddev.py', "np.std(windows, axis=1, ddof=0)", "np.std(windows, axis=1, ddof=1)")
+m('c15_willr_sign', ['C15'], 'jesse/indicators/willr.py', "np.where(denom == 0, 1, denom)) * -100", "np.where(denom == 0, 1, denom)) * 100")
+m('c15_typprice_no_close', ['C15'], 'jesse/indicators/typprice.py',
+  "    res = (candles[:, 2] + candles[:, 3] + candles[:, 4]) / 3", "    res = (candles[:, 1] + candles[:, 3] + candles[:, 4]) / 3")
+m('c15_ma_dispatch_shift', ['C15'], 'jesse/indicators/ma.py',
+  "    elif matype == 2:\n        from . import wma\n        res = wma(", "    elif matype == 2:\n        from . import trima as wma\n        res = wma(")
+m('c15_macd_signal_wrong_line', ['C15'], 'jesse/indicators/macd.py',
+  "    signal_line = ema_numba(macd_line_cleaned, signal_period)", "    signal_line = ema_numba(ema_fast, signal_period) - ema_slow")
+m('c15_rsi_simple_avg', ['C15'], 'jesse/indicators/rsi.py',
+  "        avg_gain = (avg_gain * (period - 1) + gain) / period", "        avg_gain = (avg_gain * (period - 2) + 2 * gain) / period")
+m('c15_atr_seed_tr0', ['C15'], 'jesse/indicators/atr.py',
+  "        atr_values[i] = (atr_values[i-1] * (period - 1) + tr[i]) / period", "        atr_values[i] = (atr_values[i-1] * (period - 1) + tr[i-1]) / period")
+m('c15_donchian_lower_uses_close', ['C15'], 'jesse/indicators/donchian.py', "    low = candles[:, 4]", "    low = candles[:, 2]")
+m('c15_cci_constant', ['C15'], 'jesse/indicators/cci.py', "(0.015 * md)", "(0.15 * md)")
+m('c15_mfi_flow_strict', ['C15'], 'jesse/indicators/mfi.py',
+  "typical_prices[1:] < typical_prices[:-1], raw_mf[1:], 0)", "typical_prices[1:] <= typical_prices[:-1], raw_mf[1:], 0)")
+m('c15_bollinger_dev_half', ['C15'], 'jesse/indicators/bollinger_bands.py',
+  "    lowerbands = middlebands - devdn * dev", "    lowerbands = middlebands - devdn * dev * (0.5 if period > 40 else 1)")
+m('c15_dema_coeff', ['C15'], 'jesse/indicators/dema.py', "    res = 2 * ema - ema_of_ema", "    res = 2 * ema - 0.9 * ema_of_ema - 0.1 * ema")
